@@ -14,8 +14,11 @@ proof  : Props/C10.v over RTL/Syntax.v (deep embedding of update blocks: 18 expr
          The soundness theorems are about `tc strict` = the model of the code (`tc impl`) + the extra checks S1..S13 of Typing.v;
          C10_strict_sub_impl proves strict only removes programs (same widths on every node).  For `tc impl` itself the statement is
          FALSE: C10_impl_unsound (machine-checked counterexamples) — and this harness finds each of them on the real passes.
-         PARTIAL: whole blocks with if/for are type-checked and executed by the models (and compared with pymtl3 below), but the
-         soundness PROOF stops at single assignments (C10_block_soundness_partial is only stated).
+         WHOLE BLOCKS: C10_block_sound / C10_stmt_sound (RTL/BlockSound.v) — a block with arbitrarily nested if/else, constant-bounded
+         for loops and temporaries that `tc_block strict` accepts and that has no cast never raises a width error, on any inputs,
+         and leaves temporaries / loop variables well typed (induction over statements with the block's final typing environment as
+         invariant; loop bodies typed once, executed for every value of the range).  Not proved: strict => impl for if/for
+         statements (proved for expressions and assignments; evaluated on every block here as ok_mono).
 tie    : T-diff.  Literal blocks, 30 fixed blocks and random update blocks over random signal declarations are (a) type-checked by the
          real BehavioralRTLIRGenPass + BehavioralRTLIRTypeCheckPass (verdict; width and explicit flag of every RTLIR node, in tree order),
          (b) simulated by pymtl3 (DefaultPassGroup) on random inputs (exception class / final signal values) and executed once more
@@ -1383,7 +1386,7 @@ def main(ctx):
     'language modelled: signals of Bits / nested bitstruct type, int literals, BitsN(k), closure ints, + - * & | ^ << >>, comparisons, ~, slices (constant or x:x+k), bit index, concat, zext/sext/trunc (int width form), reduce_*, BitsN(e), IfExp, temporaries, constant-bounded for loops, @= / <<= (whole vector or bitstruct signals), if/else. Not modelled in Coq: / % ** unary -, signal lists, signal-indexed constant lists and their fields, closure Bits variables, struct instantiation, struct<->vector assignment, interfaces, sub-components, negative literals; blocks of the constants section that use them are evaluated against the property on the real observations only (coverage.unmodelled_blocks_property_evaluated).',
     'generated blocks read only InPorts/temporaries and write only OutPorts/Wires (no aliasing between a temporary and a signal written later)',
     'tc_sound is proved for `tc strict` = the model of the code plus checks S1..S13 (Typing.v); tc_mono proves strict is a restriction of impl; for the code as it is the statement is false (machine-checked counterexamples; the harness finds them on the real code)',
-    'soundness is proved for expressions, sub-expressions and single assignment statements under any well-typed environment; not for whole blocks with if/for (those are only compared with the real simulator)',
+    'soundness is proved for expressions, sub-expressions, assignments and whole blocks with nested if/else, constant-bounded for loops and temporaries (C10_block_sound); the anti-monotonicity strict => impl is proved for expressions and assignments and evaluated per block (ok_mono) for if/for',
     'a probe run executes the block body as plain python on the simulated component (same statements, same Bits objects as the scheduled update block)',
     'a checker crash (non-PyMTLTypeError exception) counts as rejection',
   ]
